@@ -307,7 +307,7 @@ func (env *Zlisp) Compare(a Sexp, b Sexp) (int, error) {
 	case *SexpArray:
 		return env.compareArray(at, b)
 	case *SexpHash:
-		return compareHash(at, b)
+		return env.compareHash(at, b)
 	case *RegisteredType:
 		return compareRegisteredTypes(at, b)
 	case *SexpPointer:
